@@ -144,8 +144,17 @@ def gen_asset_rows(rng, asset, exchanges, holders, flags, start_year):
     seq = [0]
     ts_styles = flags.get("ts_styles") or ["space"]
 
-    def next_t():
+    last_kind = [None]
+
+    def next_t(kind=None):
         nonlocal t
+        # order-safe tie: reuse the previous instant when RP2's tie order (IN, then INTRA, then OUT, then sheet order) equals
+        # the order of generation, so that the running balances of the validity model are the ones RP2 computes
+        order = {"IN": 0, "INTRA": 1, "OUT": 2}
+        if flags.get("ties") and rows and kind and last_kind[0] and order[kind] >= order[last_kind[0]] and rng.random() < 0.3:
+            last_kind[0] = kind
+            return t
+        last_kind[0] = kind
         k = rng.random()
         if flags.get("sparse_years") and k < 0.35:
             gap = dt.timedelta(days=rng.randint(300, 1100), seconds=rng.randint(0, 86399))
@@ -170,7 +179,7 @@ def gen_asset_rows(rng, asset, exchanges, holders, flags, start_year):
 
     def base(table):
         seq[0] += 1
-        inst = next_t()
+        inst = next_t(table)
         off = rng.choice(OFFSETS_MIN) if flags.get("mixed_tz", True) else 0
         r = {
             "timestamp": render_ts(inst, off, rng.choice(ts_styles)),
@@ -382,6 +391,7 @@ def gen_world(rng, flags=None, country="us"):
         "extra_sheets": [],
         "section_order": ["in_header", "out_header", "intra_header", "general", "accounting_methods"],
         "keyword_case": rng.choice(["upper", "upper", "upper", "lower", "title"]),
+        "ties": bool(flags.get("ties")),
     }
     if flags.get("permute", True):
         rng.shuffle(world["section_order"])
@@ -411,10 +421,12 @@ def local_years(world):
     return sorted({parse_ts(r["timestamp"]).year for _, _, r in all_rows(world)})
 
 
-def validate(world, allow_negative=False):
+def validate(world, allow_negative=False, allow_ties=None):
     """The validity model. Returns (ok, reason). Replays each asset's rows in *instant* order
     (ties: IN, then INTRA, then OUT, then sheet order - the order RP2's balance code uses) on exact
     decimals equal to what RP2 reads."""
+    if allow_ties is None:
+        allow_ties = bool(world.get("ties"))
     for sheet in world["sheets"]:
         events = []
         order = {"IN": 0, "INTRA": 1, "OUT": 2}
@@ -477,7 +489,7 @@ def validate(world, allow_negative=False):
                 holding -= sent - recv
                 if holding < 0:
                     return False, "%s: transfer fee not covered globally" % r.get("unique_id")
-        if len(seen_instants) != len(events):
+        if len(seen_instants) != len(events) and not allow_ties:
             return False, "%s: equal instants" % sheet["name"]
     return True, ""
 
